@@ -236,6 +236,12 @@ func checkIsHTTP2ServerStream(b *bufio.Reader) (bool, error) {
 func checkClientPreface(b *bufio.Reader) (bool, error) {
 	bytesStart, err := b.Peek(len(clientPreface))
 	if err != nil {
+		// The stream ends before 24 bytes: what is there can still be told from the preface. After an
+		// h2c offer that the server ignored, a last HTTP/1 request shorter than the preface
+		// ("GET /b HTTP/1.0\r\n\r\n") used to end the client half here and was never reported.
+		if len(bytesStart) > 0 && !bytes.HasPrefix(clientPreface, bytesStart) {
+			return false, nil
+		}
 		return false, err
 	} else if len(bytesStart) != len(clientPreface) {
 		return false, errors.New("checkClientPreface: not enough bytes read")
